@@ -1023,6 +1023,18 @@ func (pid *grainPID) passivationTry(reason string) bool {
 		return pid.enqueuePassivationPill()
 	}
 
+	// The same holds for every grain that is wired to a dispatcher: deactivating
+	// here, on the manager goroutine, runs OnDeactivate concurrently with an
+	// OnReceive that is still executing (a handler longer than the idle timeout)
+	// or that starts while OnDeactivate is in progress, and a PoisonPill handled
+	// meanwhile runs OnDeactivate a second time. Routing the decision through the
+	// mailbox executes it on the grain's turn, serialized with OnReceive and
+	// PoisonPill handling. Only a grain without dispatcher (unit tests that drive
+	// the grain directly) keeps the direct path.
+	if pid.mailbox != nil && pid.dispatcher != nil {
+		return pid.enqueuePassivationPill()
+	}
+
 	if pid.logger.Enabled(log.DebugLevel) {
 		pid.logger.Debugf("grain=%s reason=%s passivation triggered", pid.identity.String(), reason)
 	}
